@@ -343,7 +343,12 @@ impl Substream {
     }
 
     /// Close the substream.
-    pub async fn close(self) {
+    pub async fn close(mut self) {
+        // Hand the frames accepted by the `Sink` to the transport before closing it.
+        if self.pending_out_frame.is_some() || !self.pending_out_frames.is_empty() {
+            let _ = futures::SinkExt::flush(&mut self).await;
+        }
+
         let _ = match self.substream {
             SubstreamType::Tcp(mut substream) => substream.shutdown().await,
             #[cfg(feature = "websocket")]
@@ -784,6 +789,11 @@ impl Sink<Bytes> for Substream {
     }
 
     fn poll_close(mut self: Pin<&mut Self>, cx: &mut Context<'_>) -> Poll<Result<(), Self::Error>> {
+        // Hand the frames accepted by `start_send()` to the transport before closing it.
+        if self.pending_out_frame.is_some() || !self.pending_out_frames.is_empty() {
+            futures::ready!(futures::Sink::poll_flush(self.as_mut(), cx))?;
+        }
+
         poll_shutdown!(&mut self.substream, cx).map_err(From::from)
     }
 }
